@@ -5,7 +5,7 @@ use super::genes::Genes;
 use crate::engine::panics;
 use serde_json::{json, Value as Json};
 use xml_dom::{
-    AsNode, AttrMut, CharacterData, CharacterDataMut, Document, DocumentMut, ElementMut, NamedNodeMapMut, Node, NodeList, NodeMut,
+    AsNode, Attr, AttrMut, CharacterData, CharacterDataMut, Document, DocumentMut, Element, ElementMut, NamedNodeMapMut, Node, NodeList, NodeMut,
     ProcessingInstructionMut, TextMut, XmlDocument, XmlNode,
 };
 
@@ -81,17 +81,28 @@ pub fn gen_history(g: &mut Genes, cfg: &HistCfg) -> Json {
                 let p = filt(g, ra, &["any", "element", "container", "detached-element", "recent"], &[1, 6, 2, 2, 1]);
                 let c = filt(g, rb, &["any", "content", "element", "leaf", "detached", "recent"], &[1, 4, 3, 2, 2, 2]);
                 let r = filt(g, rc, &["any", "content"], &[1, 3]);
+                // mostly a real child of the receiver as reference / old / removed child
+                let rel = g.chance(2, 3);
+                let r = if rel { json!([rc, "child-of", p.clone()]) } else { r };
                 match g.weighted(&[4, 3, 2, 3]) {
                     0 => json!({"op": "append", "p": p, "c": c}),
                     1 => json!({"op": "insert_before", "p": p, "c": c, "r": r}),
                     2 => json!({"op": "replace", "p": p, "n": c, "o": r}),
-                    _ => json!({"op": "remove", "p": p, "c": c}),
+                    _ => {
+                        let c = if rel { json!([rb, "child-of", p.clone()]) } else { c };
+                        json!({"op": "remove", "p": p, "c": c})
+                    }
                 }
             }
             1 => {
                 let a = filt(g, ra, &["any", "element", "attr"], &[1, 6, 1]);
                 let b = filt(g, rb, &["any", "attr", "recent"], &[1, 6, 1]);
                 let a2 = filt(g, ra, &["any", "attr", "chardata", "pi"], &[2, 3, 2, 1]);
+                let b = match g.weighted(&[5, 2, 2]) {
+                    0 => b,
+                    1 => json!([rb, "attr-named-like", a.clone()]),
+                    _ => json!([rb, "attr-of", a.clone()]),
+                };
                 match g.weighted(&[4, 2, 2, 1, 2, 1, 2]) {
                 0 => json!({"op": "set_attr", "e": a, "name": pick_str(g, names), "value": pick_str(g, data)}),
                 1 => json!({"op": "remove_attr", "e": a, "name": pick_str(g, names)}),
@@ -200,6 +211,41 @@ impl Pool {
     /// `raw` is either a number (index over the whole pool) or [number, "filter"] (index over the
     /// pool members matching the filter, falling back to the whole pool when none matches)
     pub fn idx(&self, raw: &Json) -> usize {
+        // relational form: [number, relation, base operand] — index over the pool members standing in that
+        // relation to the base operand (falls back to the plain forms when none does)
+        if let Json::Array(a) = raw {
+            if a.len() == 3 {
+                let r = a[0].as_u64().unwrap_or(0) as usize;
+                let rel = a[1].as_str().unwrap_or("");
+                let base = self.idx(&a[2]);
+                let same = |i: usize, n: &XmlNode| -> bool { self.origin[i] == self.origin[base] && n.id() == self.nodes[base].id() && std::mem::discriminant(n) == std::mem::discriminant(&self.nodes[base]) };
+                let cand: Vec<usize> = (0..self.nodes.len())
+                    .filter(|&i| {
+                        let n = &self.nodes[i];
+                        match rel {
+                            "child-of" => !matches!(n, XmlNode::Attribute(_)) && n.parent_node().map(|p| same(i, &p)).unwrap_or(false),
+                            "attr-of" => match n {
+                                XmlNode::Attribute(a) => a.owner_element().map(|e| same(i, &e.as_node())).unwrap_or(false),
+                                _ => false,
+                            },
+                            "attr-named-like" => match (n, &self.nodes[base]) {
+                                // an attribute of ANOTHER element whose name the base element also uses
+                                (XmlNode::Attribute(a), XmlNode::Element(e)) => {
+                                    let owned_by_base = a.owner_element().map(|o| same(i, &o.as_node())).unwrap_or(false);
+                                    !owned_by_base && a.owner_element().is_some() && e.get_attribute_node(&a.name()).is_some()
+                                }
+                                _ => false,
+                            },
+                            _ => false,
+                        }
+                    })
+                    .collect();
+                if !cand.is_empty() {
+                    return cand[(r * cand.len()) >> 16];
+                }
+                return self.idx(&json!([a[0], "any"]));
+            }
+        }
         let (r, f) = match raw {
             Json::Array(a) => (a.first().and_then(|x| x.as_u64()).unwrap_or(0) as usize, a.get(1).and_then(|x| x.as_str()).unwrap_or("any")),
             other => (other.as_u64().unwrap_or(0) as usize, "any"),
@@ -340,11 +386,11 @@ fn apply_inner(pool: &mut Pool, kind: &str, op: &Json) -> Outcome {
             let p = pool.node(&op["p"]);
             let n = pool.node(&op["n"]);
             let o = pool.node(&op["o"]);
+            let oi = pool.origin[pool.idx(&op["o"])]; // before the call: relational operands depend on the state
             match with_nodemut(&p, |m| m.replace_child(n, &o)) {
                 Some(x) => {
                     let (out, v) = res(x, |v| format!("id{}", v.id()));
                     if let Some(v) = v {
-                        let oi = pool.origin[pool.idx(&op["o"])];
                         pool.push(v, oi);
                     }
                     out
@@ -355,11 +401,11 @@ fn apply_inner(pool: &mut Pool, kind: &str, op: &Json) -> Outcome {
         "remove" => {
             let p = pool.node(&op["p"]);
             let c = pool.node(&op["c"]);
+            let oi = pool.origin[pool.idx(&op["c"])]; // before the call: relational operands depend on the state
             match with_nodemut(&p, |m| m.remove_child(&c)) {
                 Some(x) => {
                     let (out, v) = res(x, |v| format!("id{}", v.id()));
                     if let Some(v) = v {
-                        let oi = pool.origin[pool.idx(&op["c"])];
                         pool.push(v, oi);
                     }
                     out
@@ -377,9 +423,9 @@ fn apply_inner(pool: &mut Pool, kind: &str, op: &Json) -> Outcome {
         },
         "set_attr_node" => match (pool.node(&op["e"]), pool.node(&op["a"])) {
             (XmlNode::Element(e), XmlNode::Attribute(a)) => {
+                let oi = pool.origin[pool.idx(&op["e"])];
                 let (out, v) = res(e.set_attribute_node(a), |v| format!("{:?}", v.as_ref().map(|x| x.as_node().id())));
                 if let Some(Some(old)) = v {
-                    let oi = pool.origin[pool.idx(&op["e"])];
                     pool.push(old.as_node(), oi);
                 }
                 out
